@@ -5,6 +5,7 @@
 // Durability after a crash, WAL behaviour and visibility to later readers are SQLite's and are NOT decided here.
 #![allow(unused_imports, unused_variables, dead_code, unused_mut, non_snake_case)]
 use vstd::prelude::*;
+use std::collections::{HashMap, HashSet, VecDeque};   // the std collections a change to the extracted code may reach for
 verus! {
 pub type Uid = [u8; 16];
 pub mod rusqlite {
